@@ -1,11 +1,12 @@
 (** C20 The CLI is a faithful wrapper: I/O paths, config file and defaults.
     These are theorems about Model/Cli.v, the model of chiritori-cli/src/main.rs from the parsed
-    argument record on.  Independence of the process environment (TZ, locale) and the OS routing of
+    argument record on, and about Model/Current.v, the model of the parse of --time-limited-current.  Independence of the process environment (TZ, locale) and the OS routing of
     files and pipes are facts about the runtime that no theorem about this model can show; they are
     covered by the differential run of the real binary (under four TZ settings) only. *)
 From Coq Require Import List NArith ZArith Arith Bool.
 Import ListNotations.
-From Chiri Require Import Base.Bytes Base.Res Model.Markers Model.Clean Model.ListRender Model.Cli Proofs.CliProofs.
+From Chiri Require Import Base.Bytes Base.Res Model.Markers Model.Clean Model.ListRender Model.Cli Model.Chrono Model.Current Spec.CivilTime
+     Proofs.CliProofs Proofs.ChronoPadding Proofs.CurrentCli Proofs.CurrentProofs.
 
 (** The same options give the same result whether the source comes from --filename or stdin. *)
 Theorem C20_input_route :
@@ -90,6 +91,64 @@ Theorem C20_defaults :
 Proof. exact defaults_are_documented. Qed.
 Print Assumptions C20_defaults.
 
+(** The current time given explicitly.  A text that parses fixes the instant: the wall clock - the only place where
+    the process environment enters main.rs - is not consulted, and the result is the run at that instant. *)
+Theorem C20_explicit_current_ignores_the_clock :
+  forall a text t leap clock1 clock2 stdin fs,
+    parse_current text = Some (t, leap) ->
+    run_text a text clock1 stdin fs = run_text a text clock2 stdin fs
+    /\ run_text a text clock1 stdin fs = run (with_current a t) stdin fs.
+Proof. exact explicit_current_ignores_the_clock. Qed.
+Print Assumptions C20_explicit_current_ignores_the_clock.
+
+(** Two texts that read as the same instant give the same result. *)
+Theorem C20_same_instant_same_result :
+  forall a text1 text2 t leap1 leap2 clock stdin fs,
+    parse_current text1 = Some (t, leap1) -> parse_current text2 = Some (t, leap2) ->
+    run_text a text1 clock stdin fs = run_text a text2 clock stdin fs.
+Proof. exact same_instant_same_result. Qed.
+Print Assumptions C20_same_instant_same_result.
+
+(** Every accepted spelling of a wall-clock time at an offset reads as the instant it denotes: T, t or a blank
+    between date and time, an optional fraction of a second, white space in front of the offset, the offset as
+    +HH:MM or +HHMM with either sign ... *)
+Theorem C20_current_text_is_its_instant :
+  forall y m d h mi s sep frac gap negative colon oh om,
+    valid_civil y m d h mi s -> valid_offset oh om ->
+    is_sep sep = true -> is_frac frac = true -> forallb ascii_ws gap = true ->
+    parse_current (render_date y m d ++ [sep] ++ render_time h mi s ++ frac ++ gap ++ render_offset negative colon oh om)
+    = Some (instant y m d h mi s negative oh om, false).
+Proof. exact current_rendered. Qed.
+Print Assumptions C20_current_text_is_its_instant.
+
+(** ... or as Z, z, UTC in any letter case for offset zero ... *)
+Theorem C20_current_text_zulu :
+  forall y m d h mi s sep frac gap z,
+    valid_civil y m d h mi s -> is_sep sep = true -> is_frac frac = true -> forallb ascii_ws gap = true -> is_zulu z = true ->
+    parse_current (render_date y m d ++ [sep] ++ render_time h mi s ++ frac ++ gap ++ z)
+    = Some (instant y m d h mi s false 0 0, false).
+Proof. exact current_rendered_zulu. Qed.
+Print Assumptions C20_current_text_zulu.
+
+(** ... with white space around the whole text ignored (for every text, accepted or not) ... *)
+Theorem C20_current_text_outer_padding :
+  forall w1 w2 t,
+    forallb ascii_ws w1 = true -> forallb ascii_ws w2 = true ->
+    parse_current (w1 ++ t ++ w2) = parse_current t.
+Proof. exact current_outer_padding. Qed.
+Print Assumptions C20_current_text_outer_padding.
+
+(** ... so the same instant written in two zones reads the same. *)
+Theorem C20_current_text_zone_independent :
+  forall y m d h mi s y' m' d' h' mi' s' sep sep' negative colon oh om negative' colon' oh' om',
+    valid_civil y m d h mi s -> valid_civil y' m' d' h' mi' s' -> valid_offset oh om -> valid_offset oh' om' ->
+    is_sep sep = true -> is_sep sep' = true ->
+    instant y m d h mi s negative oh om = instant y' m' d' h' mi' s' negative' oh' om' ->
+    parse_current (render_date y m d ++ [sep] ++ render_time h mi s ++ render_offset negative colon oh om)
+    = parse_current (render_date y' m' d' ++ [sep'] ++ render_time h' mi' s' ++ render_offset negative' colon' oh' om').
+Proof. exact current_zone_independent. Qed.
+Print Assumptions C20_current_text_zone_independent.
+
 (** Non-vacuity: with default options and stdin "a<!-- <removal-marker name="vec![]"> -->x<!-- </removal-marker> -->b"
     nothing is removed (no default target), and the output goes to stdout. *)
 Definition ex_src : str :=
@@ -97,3 +156,11 @@ Definition ex_src : str :=
    62;32;45;45;62;120;60;33;45;45;32;60;47;114;101;109;111;118;97;108;45;109;97;114;107;101;114;62;32;45;45;62;98]%N.
 Example C20_example : run (default_args 1000000000%Z) (Some ex_src) (fun _ => None) = Exit 0 ex_src None.
 Proof. vm_compute. reflexivity. Qed.
+
+(** "2001-09-09 10:46:40.5 +0900" is the instant 1000000000; the same run whatever the clock says *)
+Definition ex_text : str :=
+  [50;48;48;49;45;48;57;45;48;57;32;49;48;58;52;54;58;52;48;46;53;32;43;48;57;48;48]%N.
+Example C20_current_example :
+  parse_current ex_text = Some (1000000000%Z, false) /\
+  run_text (default_args 0%Z) ex_text 5%Z (Some ex_src) (fun _ => None) = Exit 0 ex_src None.
+Proof. vm_compute. split; reflexivity. Qed.
